@@ -154,6 +154,7 @@ theorem regDecl_sim {st st' ns d x} (hS : Sim st st') (hx : declItem d = some x)
   cases d with
   | imp t => simp [declItem] at hx
   | patch q => simp [declItem] at hx
+  | aliasAnnots n as => simp [declItem] at hx
   | type td =>
     simp only [declItem, Option.some.injEq] at hx
     subst hx
@@ -162,7 +163,7 @@ theorem regDecl_sim {st st' ns d x} (hS : Sim st st') (hx : declItem d = some x)
     simp only [declItem, Option.some.injEq] at hx
     subst hx
     exact bindNew_sim .alias (Or.inr (Or.inl rfl)) hS rfl
-  | annot n =>
+  | annot n ak =>
     simp only [declItem, Option.some.injEq] at hx
     subst hx
     exact bindNew_sim .annotation (Or.inr (Or.inr rfl)) hS rfl
@@ -224,6 +225,7 @@ theorem regDecl_sim {st st' ns d x} (hS : Sim st st') (hx : declItem d = some x)
         | type _ => simp only [FeNames.addItem, hb, he, eraseItem, Bool.false_eq_true, ↓reduceIte, Agree]
         | «alias» _ => simp only [FeNames.addItem, hb, he, eraseItem, Bool.false_eq_true, ↓reduceIte, Agree]
         | other => simp only [FeNames.addItem, hb, he, eraseItem, Bool.false_eq_true, ↓reduceIte, Agree]
+        | annot _ => simp only [FeNames.addItem, hb, he, eraseItem, Bool.false_eq_true, ↓reduceIte, Agree]
     | none =>
       obtain ⟨hb, he, hnb⟩ := lookupSym_none_sim hS hl
       simp only [FeNames.addItem, hb, he, Bool.false_eq_true, ↓reduceIte]
